@@ -27,6 +27,11 @@ def generic(prop, quick_cfgs, thorough_cfgs, qruns=600, truns=4000, qscripts=300
             S.apalache_counters(c)
         batches = [("random", rnd(c, qruns if c.quick else truns)),
                    ("scripted", scripts(c, qscripts if c.quick else tscripts, **(sim_kw or {})))]
+        # one long delay behind one step of the scheduler; and enqueues that meet finished / failed / running dependencies
+        batches.append(("focus", ["-mode", "focus", "-seed", c.seed, "-runs", 400 if c.quick else 4000, "-maxj", 8, "-maxn", 3]))
+        # (several processes: a driver stops after 8 abnormal runs, whose leftover goroutines would blur later ones)
+        for i in range(3):
+            batches.append(("phased-%d" % i, ["-mode", "phased", "-seed", c.seed * 10 + i, "-runs", 120 if c.quick else 1200]))
         for ex in (extra or []):
             batches.append((ex[0], ex[1](c)) + tuple(ex[2:]))
         if not c.quick:
